@@ -84,6 +84,9 @@ func (c *Ctx) MapDedup(fn *ssa.Function, keyGlob string, tgt Target, what string
 			cut = BackEdges(fn)
 		}
 		reached := ReachFrom([]*ssa.BasicBlock{h.ifi.Block().Succs[h.succ]}, cut)
+		if cut[Edge{h.ifi.Block(), h.succ}] {
+			reached = map[*ssa.BasicBlock]bool{}
+		}
 		vs := sigOf(fn.Signature)
 		bad := ""
 		for _, ti := range tgt.instrs(fn) {
